@@ -107,12 +107,15 @@ class Discharger:
         c2 = engine.Ctx("C14", "quick", self.facts, 0)
         try:
             if which == "w":
-                T.rule_writer_chain(c2, "x", "x", "x")
+                T.rule_writer_chain(c2, "wait", "send", "chain")
             else:
-                T.rule_reader_chain(c2, "x")
+                T.rule_reader_chain(c2, "send")
         except CheckerError:
             return False
-        return bool(c2.obs) and all(o.ok for o in c2.obs)
+        # what a `recv().unwrap()` relies on is that the token / the reader is always SENT before the sending end is destroyed (and that
+        # the channels are chained as evaluated); in which order a writer waits and locks is another matter (C01.2)
+        rel = [o for o in c2.obs if o.rule == "chain" or (o.rule == "send" and (which == "r" or "send-after-own-turn" in o.key or "used-writer" in o.key))]
+        return bool(rel) and all(o.ok for o in rel)
 
     def _handoff_w(self):
         return self._chain_ok("w")
@@ -173,7 +176,10 @@ class Discharger:
                 adt = f.rec.get("impl_self_adt")
                 seq_file = facts.adt(SW)["file"]
                 rawf = facts.fns.get(f.src_of(bb)) or f
-                if rawf.file == seq_file and self.handoff_w and self.handoff_r:
+                side = rawf.rec.get("impl_self_adt")
+                need_w = side not in (SR, SRB)
+                need_r = side not in (SW, SWB)
+                if rawf.file == seq_file and (self.handoff_w or not need_w) and (self.handoff_r or not need_r):
                     return ("D-HANDOFF", "inside the turn-taking module: the predecessor's Drop always sends the token / passes the reader on (C01.3, C09.4)")
                 if shared.tls_branch_dead(self.ctx, f, bb):
                     return ("D-DEAD-CFG", "HTTPS-only synchronisation; Stream::secure() is constantly false in this configuration")
@@ -240,6 +246,20 @@ class Discharger:
                 return r
         if t["t"] == "call" and re.search(r"Vec::<T(, A)?>::insert$", name) and len(t["args"]) >= 2 and op_const(t["args"][1]) == 0:
             return ("D-INSERT0", "insert at index 0 is always in bounds")
+        if t["t"] == "call" and re.search(r"Vec::<T(, A)?>::(remove|swap_remove)$", call_name(t)) and len(t["args"]) >= 2:
+            # `if let Some(pos) = v.iter().position(..) { v.swap_remove(pos) }`: the index was just found in the same vector
+            io = f.origin(t["args"][1])
+            recv = origin_fields(f.origin(t["args"][0]))
+            for z in origin_walk(io):
+                if z[0] == "call" and re.search(r"Iterator>?::(position|rposition)(::<|$)", z[1]) and any(y[0] == "downcast" and y[2] == "Some" for y in origin_walk(io)):
+                    src = origin_fields(z[2][0]) if z[2] else set()
+                    # no mutation of the vector between the search and the removal
+                    pb = z[3]
+                    between = f.reach([f.normal_target(pb)], blocked={bb}, unwind=False)
+                    mut = [b2 for b2, t2 in f.calls() if b2 in between and b2 != bb and b2 != pb and bb in f.reach([b2], unwind=False) and re.search(r"Vec::<T(, A)?>::(push|insert|remove|swap_remove|clear|truncate|retain|pop|drain|dedup\w*|append|extend\w*)$", call_name(t2))
+                           and origin_fields(f.origin(t2["args"][0])) & recv]
+                    if recv and src & recv and not mut and f.dominates(pb, bb, unwind=False):
+                        return ("D-FOUND-INDEX", "the index was returned by position() on the same vector, which is not changed in between")
         if kind.startswith("assert:Overflow") or kind == "assert:Overflow":
             r = self.read_contract_arith(f, bb, t) or self.digit_arith(f, bb, t)
             if r:
@@ -460,6 +480,31 @@ class Discharger:
         dom = f.dominators(False)
         if rname.endswith("RangeTo") and ro[2]:
             end = ro[2][0]
+            # `buf[..n]` where n is the count a `read(&mut buf)` into the very same buffer returned (io::Read contract: n <= buf.len())
+            def buffer_root(x):
+                y = x
+                for _ in range(12):
+                    if y[0] in ("ref", "deref"):
+                        y = y[1]
+                    elif y[0] == "cast":
+                        y = y[2]
+                    elif y[0] == "call" and re.search(r"(deref(_mut)?|as_mut_slice|as_mut|as_slice|borrow_mut)$", y[1]) and y[2]:
+                        y = y[2][0]
+                    else:
+                        break
+                return origin_str(y)
+            ends = [end]
+            for z in origin_walk(end):
+                if z[0] == "local":
+                    for d in f.defs().get(z[1], []):
+                        if d[0] == "assign" and d[3]["rv"] == "use":
+                            ends.append(f.origin(d[3]["op"]))
+            for e in ends:
+                is_ok_payload = any(z[0] == "downcast" and z[2] in ("Ok", "Continue") for z in origin_walk(e))
+                for z in origin_walk(e):
+                    if z[0] == "call" and z[1].endswith("Read::read") and is_ok_payload and len(z[2]) > 1 and buffer_root(z[2][1]) == buffer_root(base):
+                        self.ctx.assume("inner readers obey the io::Read contract (returned count <= buffer length)")
+                        return ("D-READ-CONTRACT", "`buf[..n]` with n the count returned by a read into that same buffer")
             # `buf[..buf.len().min(n)]`: the end is the minimum of the slice's own length and something else
             if end[0] == "call" and re.search(r"::min$", end[1]):
                 for a in end[2]:
@@ -495,6 +540,40 @@ class Discharger:
                             if taint.origin_eq(recv, base) or taint.origin_eq(("ref", recv), base) or taint.origin_eq(recv, ("ref", base)) or origin_str(recv) == origin_str(base):
                                 return ("D-GUARDED-INDEX", "`[%d..]` after starts_with(%r) on the same string" % (k, lits[0]))
                 return None
+            # `v[start..]` where start is an earlier `v.len()` and v has not been shortened since (only grown: resize-to-larger, push, extend)
+            lens = []
+            for z in origin_walk(start):
+                if z[0] == "call" and re.search(r"Vec::<T(, A)?>::len$|<impl \[T\]>::len$", z[1]):
+                    lens.append(z)
+                if z[0] == "local":
+                    for d in f.defs().get(z[1], []):
+                        if d[0] == "call" and re.search(r"Vec::<T(, A)?>::len$", call_name(f.term(d[1]))):
+                            tt = f.term(d[1])
+                            lens.append(("call", call_name(tt), [f.origin(a) for a in tt["args"]], d[1]))
+            def root(x):
+                y = x
+                for _ in range(12):
+                    if y[0] in ("ref", "deref"):
+                        y = y[1]
+                    elif y[0] == "call" and re.search(r"(deref(_mut)?|as_mut_slice|as_mut|as_slice)$", y[1]) and y[2]:
+                        y = y[2][0]
+                    else:
+                        break
+                return origin_str(y)
+            for z in lens:
+                if z[2] and root(z[2][0]) == root(base) and f.dominates(z[3], bb, unwind=False):
+                    between = f.reach([f.normal_target(z[3])], blocked={bb, z[3]}, unwind=False)
+                    shrink = [b2 for b2, t2 in f.calls() if b2 in between and bb in f.reach([b2], unwind=False) and t2["args"] and root(f.origin(t2["args"][0])) == root(base)
+                              and re.search(r"Vec::<T(, A)?>::(truncate|clear|pop|remove|swap_remove|drain|split_off|retain|dedup\w*|set_len|shrink_to\w*)$", call_name(t2))]
+                    grow_ok = True
+                    for b2, t2 in f.calls():
+                        if b2 in between and bb in f.reach([b2], unwind=False) and re.search(r"Vec::<T(, A)?>::resize$", call_name(t2)) and t2["args"] and root(f.origin(t2["args"][0])) == root(base):
+                            no = f.origin(t2["args"][1])
+                            # resize(len + K): grows
+                            if not (any(w[0] == "binop" and w[1] in ("Add", "AddWithOverflow", "AddUnchecked") for w in origin_walk(no))):
+                                grow_ok = False
+                    if not shrink and grow_ok:
+                        return ("D-GUARDED-INDEX", "`v[start..]` with start an earlier length of v, which has only grown since")
             # accumulator of read counts
             l = op_local(t["args"][1])
             r = self.accumulator(f, start)
@@ -562,6 +641,38 @@ class Discharger:
                             if is_count(oo):
                                 return True
             return is_count(y)
+        if x[1] == "SubWithOverflow" and from_local_reads(x[3]):
+            # `L - n` where n was returned by a read into a buffer created as `vec![0; L]`: n <= L by the io::Read contract
+            def counts(y):
+                outc = []
+                for z in origin_walk(y):
+                    if z[0] == "call" and z[1].endswith("Read::read"):
+                        outc.append(z)
+                    if z[0] == "local":
+                        for d in f.defs().get(z[1], []):
+                            if d[0] == "assign" and d[3]["rv"] == "use":
+                                outc += [w for w in origin_walk(f.origin(d[3]["op"])) if w[0] == "call" and w[1].endswith("Read::read")]
+                return outc
+            for rc in counts(x[3]):
+                if len(rc[2]) > 1:
+                    for w in origin_walk(rc[2][1]):
+                        if w[0] == "call" and re.search(r"vec::from_elem$", w[1]) and len(w[2]) > 1 and (taint.origin_eq(w[2][1], x[2]) or origin_str(w[2][1]) == origin_str(x[2])):
+                            self.ctx.assume("inner readers obey the io::Read contract (returned count <= buffer length)")
+                            return ("D-READ-CONTRACT", "`L - n` with n the count of a read into a buffer of exactly L bytes")
+        if x[1] == "AddWithOverflow":
+            # `len + K`: a length of something held in memory is at most isize::MAX, a small constant on top cannot overflow usize
+            for a, b in ((x[2], x[3]), (x[3], x[2])):
+                k = b[1] if b[0] == "const" and isinstance(b[1], int) and not isinstance(b[1], bool) else None
+                if k is not None and 0 <= k <= (1 << 32):
+                    is_len = (a[0] == "call" and re.search(r"::len$", a[1])) or (a[0] == "unop" and a[1] == "PtrMetadata")
+                    if not is_len:
+                        for z in origin_walk(a):
+                            if z[0] == "local":
+                                ds = [d for d in f.defs().get(z[1], []) if d[0] in ("assign", "call")]
+                                if ds and all((d[0] == "call" and re.search(r"::len$", call_name(f.term(d[1])))) for d in ds):
+                                    is_len = True
+                    if is_len:
+                        return ("D-LEN-PLUS-CONST", "a length of data held in memory plus a constant cannot overflow usize")
         if from_local_reads(x[2]) or from_local_reads(x[3]):
             if x[1] == "SubWithOverflow":
                 # `remaining -= n`: n <= buffer length is only enough if the buffer is no longer than `remaining`
